@@ -13,7 +13,7 @@ Also here: the renaming `ren` commutes with the operations on entries, and an er
 of an operation has error-free arguments.
 -/
 namespace Goyang.Lemmas.IncludeRel
-open Goyang.Model Goyang.Spec.Include Goyang.Lemmas.Tree
+open Goyang.Model Goyang.Spec.Include Goyang.Lemmas.Tree Goyang.Spec.Tree
 
 /-! ### `ren` and the operations on entries -/
 
